@@ -103,6 +103,14 @@ CLAIMED = {
         note="floats modelled as reals; N=3, <=2 bonds per particle, l in {1,2,3,4,6} quick / 1..12 thorough; concrete cells for "
              "periodic runs; phase averaging (average_complex=False) uses a real phase symbol with algebraic (cos,sin).",
         ref="DESIGN.md C10"),
+    "C15": dict(
+        text="Bounded symbolic model checking of the vector-field measures: participation ratio formula, scale invariance and "
+             "1/N<=PR<=1 (N<=4, via one non-negative symbol per particle norm), alignment, phase quotient and |PQ|<=1, "
+             "divergence/curl (2D/3D, open and periodic concrete cells), vibrability, and the Fourier-space split: L parallel to "
+             "q, q.T=0, L+T=F, S=S_L+S_T, plus the per-wave-vector time correlation of FFT/T_FFT/L_FFT against the C14 oracle.",
+        note="floats modelled as reals; concrete neighbour topologies and boxes; phases through the structural cache; files "
+             "written by the correlation variant are recorders in the symbolic run and real files in replays.",
+        ref="DESIGN.md C15"),
 }
 
 NOT_APPLICABLE = {
